@@ -214,6 +214,10 @@ func plan(seed int64, tier string) []vrt.Case {
 		}
 		add(params{Leg: "deadline", API: api, Kind: "prompt-never-reads", DMs: 300, CallMiB: 24, PW: []byte("secret")})
 	}
+	// the connect phase is plumbing of its own in every entry point: a host that does not answer the connect, through each of them
+	for _, api := range deadlineAPIs {
+		add(params{Leg: "deadline", API: api, Kind: "syn-unanswered", DMs: 200, Call: []byte("LA5NTA"), PW: []byte("secret")})
+	}
 	add(params{Leg: "deadline", API: "ctx", Kind: "callsign-forever", DMs: 300, CallMiB: 24, PW: []byte("secret")})
 	for _, kind := range []string{"silent", "prompt-then-silence", "garbage-lines", "callsign-forever"} {
 		add(params{Leg: "deadline", API: "regctx", Kind: kind, DMs: 300, Call: []byte("LA5NTA"), PW: []byte("secret")})
@@ -999,6 +1003,10 @@ func runDeadline(o *vrt.Obs, p params) {
 	late, overruns := 0, 0
 	for a := 0; a < attempts; a++ {
 		h, err := startHostile(p.Kind)
+		if err == errNoFullQueue {
+			o.Count("syn_unanswered_servers_not_available_on_this_system", 1)
+			return
+		}
 		if err != nil {
 			o.Inconclusive = append(o.Inconclusive, "hostile server: "+err.Error())
 			return
@@ -1028,7 +1036,7 @@ func runDeadline(o *vrt.Obs, p params) {
 			returned = true
 		case <-time.After(d + deadlineSlack):
 		}
-		reached := h.accepted.Load() > 0 || p.Kind == "backlog"
+		reached := h.accepted.Load() > 0 || p.Kind == "backlog" || p.Kind == "syn-unanswered"
 		h.close() // also releases a dial that is still blocked
 		if !returned {
 			late++
